@@ -54,6 +54,12 @@ WORKSPACES = {
         "b/y.F90": "module ey\n#include \"eh.h\"\n#ifdef E_FROM_HEADER\n  integer :: e_seen_y\n#endif\nend module ey\n",
         "b/eh.h": "#define E_FROM_HEADER 1\n",
     },
+    # the same function-like macro name with a different body in two preprocessed files
+    "WF_macros": {
+        "fa.F90": "#define FDECL(n) integer :: n\n#define FTWO(a, b) a, b\nmodule fam\n  implicit none\n  FDECL(falpha)\n  integer :: FTWO(fa1, fa2)\nend module fam\n",
+        "fb.F90": "#define FDECL(n) real :: n\n#define FTWO(a) a\nmodule fbm\n  implicit none\n  FDECL(fbeta)\n  real :: FTWO(fb1)\nend module fbm\n",
+        "fu.f90": "program fu\n  use fam\n  use fbm\n  implicit none\n  falpha = fa1 + fa2\n  fbeta = fb1\nend program fu\n",
+    },
 }
 DUP_HEADER = {
     "files": {
